@@ -23,6 +23,13 @@ class Unfoldable(Exception):
 class PySeq(list):
     """A python sequence (tuple / list display, range, shape) as opposed to a tensor value: true iff non-empty."""
 
+    def __add__(self, other):
+        return PySeq(list(self) + list(other))
+
+    def __getitem__(self, i):
+        r = list.__getitem__(self, i)
+        return PySeq(r) if isinstance(i, slice) else r
+
 
 def truth(t) -> bool:
     """Truth value of an evaluated condition; Unfoldable where python / torch would not give one."""
@@ -228,8 +235,8 @@ class Folder:
                 return _ew(lambda x: -x, v)
             if isinstance(node.op, ast.UAdd):
                 return v
-            if isinstance(node.op, ast.Not) and not isinstance(v, list):
-                return not bool(v)
+            if isinstance(node.op, ast.Not):
+                return not truth(v)
             if isinstance(node.op, ast.Invert):
                 return _ew(lambda x: (not x) if isinstance(x, bool) else (1 - x if x in (0, 1) else ~x), v)
             raise Unfoldable("unary")
@@ -641,9 +648,9 @@ class Folder:
                 if nm == "len" and isinstance(v, (list, str)):
                     return len(v)
                 if nm == "reversed" and isinstance(v, (list, str)):
-                    return list(reversed(v))
+                    return PySeq(reversed(v))
                 if nm == "list" and isinstance(v, (list, str)):
-                    return list(v)
+                    return PySeq(v)
                 if nm == "str" and isinstance(v, (int, str)) and not isinstance(v, bool):
                     return str(v)
                 raise Unfoldable(f"call {nm}")
